@@ -62,8 +62,11 @@ def _kwargs(d):
 
 
 def build(d, cache=None):
-    """Real element from a dump."""
+    """Real element from a dump.  `cache` maps id(sub-dump) to an already built real element to be reused (the same
+    Python object, e.g. the same class), for trees that share an element by identity."""
     cache = {} if cache is None else cache
+    if id(d) in cache:
+        return cache[id(d)]
     cls = d["cls"]
     kw = d.get("kw", {})
     args = _kwargs(d)
